@@ -1,6 +1,25 @@
+"""Registry of checks: property id -> (module, function) + MANIFEST metadata."""
 CHECKS = {
  'C07': ('vf','check_c07'),
  'C08': ('vf','check_c08'),
  'C09': ('vf','check_c09'),
  'C10': ('vf','check_c10'),
+}
+TLA = 'explicit TLA+ spec (VFApi) checked by TLC; conformance by trace validation of recorded executions of the real library (VFApi_Trace) and replay of TLC-generated behaviours (VFApi_MC)'
+META = {
+ 'C07': dict(level='model_checking', design='5 C07', technique=TLA,
+   text='TLC model-checks the API-level vorbisfile contract (VFApi_MC: every caller history over an abstract 3-link file, rules jointly satisfiable, position stays in file, perturbed answers always rejected) and then validates recorded executions of the real library against the same rules: every read after every seek is located bit-exactly in a packet-level reference decode and compared with the position the model tracks. Histories come from TLC simulation of the model and from random mixing; streams cover chained files, 0/1-sample links, single-page links, page-spanning packets, foreign multiplexed streams, non-zero initial granule positions.',
+   note='trusts: libogg, TLC, the identity projection (bit-exact lookup of returned floats in the per-link packet-level decode made with the same build), the stream factory; bounded histories and a finite catalogue of streams'),
+ 'C08': dict(level='model_checking', design='5 C08', technique=TLA,
+   text='Seek postconditions of VFApi (exact landing for sample seeks, +-1 for time seeks, B(p) <= tell <= p for page seeks, rejection without disturbance outside the range, EOF after seeking to L) are evaluated by TLC on recorded seek chains of the real library over every page/packet/link boundary +-1, 0, L, L+-1, negative and fractional targets, from several prior-history classes; thorough: every position of short files.',
+   note='same trusted base as C07; time targets are constructed as exact rationals of the link rate in double arithmetic; page boundaries come from an independent libogg walk of the file'),
+ 'C09': dict(level='model_checking', design='5 C09', technique=TLA,
+   text='The Open/Query/Read rules of VFApi (link count, per-link serial, channels, rate, comment identity, exact length, total, start at 0, no hole, per-link identity with the stand-alone decode) are evaluated by TLC on recorded opens and uninterrupted reads of generated chained files (k = 1..6 and 40 links, 0-sample / 1-sample / single-page links, random packets-per-page, foreign multiplexed streams, initial granule offsets).',
+   note='same trusted base as C07; each link reference is the packet-level decode of that link alone'),
+ 'C10': dict(level='model_checking', design='5 C10', technique=TLA,
+   text='Recorded complete decodes through vorbisfile in seekable and streaming mode under generated short-read schedules of the read callback (1 byte, random, fixed k, page boundary +-d, inside page header +-d, pre-read initial bytes) and schedules of requested lengths are validated by TLC against VFApi: every chunk must be the next samples of the packet-level reference, no hole/error on intact streams.',
+   note='same trusted base as C07; the packet-level access path is the reference itself; the OggSync design model covers the byte-delivery independence at page level'),
+}
+NOT_APPLICABLE = {
+ 'C06': 'every clause is about real-valued signal fidelity (finiteness, alignment by correlation, peak ratio, error vs quality); TLC has integers only and a numerical oracle would be a different technique (DESIGN.md section 6)',
 }
